@@ -9,6 +9,7 @@ and then use trimesh operations on them at any point.
 """
 
 import abc
+import copy
 
 import numpy as np
 
@@ -136,6 +137,11 @@ class Primitive(Trimesh):
         copied : object
           Copy of current primitive
         """
+        # the tessellation resolution is not part of the serialized
+        # schema returned by `to_dict` so pass it along explicitly
+        for key in ("sections", "subdivisions"):
+            if hasattr(self.primitive, key) and key not in kwargs:
+                kwargs[key] = getattr(self.primitive, key)
         # get the constructor arguments
         kwargs.update(self.to_dict())
         # remove the type indicator, i.e. `Cylinder`
@@ -147,12 +153,12 @@ class Primitive(Trimesh):
             # copy visual information
             primitive_copy.visual = self.visual.copy()
 
-        # copy metadata
-        primitive_copy.metadata = self.metadata.copy()
+        # copy metadata including any nested containers
+        primitive_copy.metadata = copy.deepcopy(self.metadata)
 
         for k, v in self._data.data.items():
             if k not in primitive_copy._data:
-                primitive_copy._data[k] = v
+                primitive_copy._data[k] = copy.deepcopy(v)
 
         return primitive_copy
 
